@@ -170,6 +170,9 @@ pub const TEMPLATES: &[&str] = &[
     "local a : {\nx : number ,\n[ string ] : T\n} = t",
     "type F = <\nT\n> (\nT\n) ->\nT",
     "return (\na\n) , a [\n1\n] , a\n. b , # \na",
+    // a file whose line breaks are lone carriage returns
+    "local x = 1 -- note\rlocal y = 2\rreturn x + y\r",
+    "a ( ) -- c\rb ( )\nc ( )",
     // fewer values than variables
     "local a , b = ...",
     "const a , b = ...",
@@ -183,7 +186,7 @@ pub const TEMPLATES: &[&str] = &[
     "local a , b = f ( ) , nil",
 ];
 
-pub const TRIVIA: &[&str] = &[" ", "\t", "\n", "\r\n", "\n\n", "--c\n", "--c\r\n", "--[[c]]", "--[==[\nc\n]==]", "--[a[c\n", "--\n", "  ", " --[[a]] --[[b]] ", "--[[ ]] ]]\n", "--[[c]]\n"];
+pub const TRIVIA: &[&str] = &[" ", "\t", "\n", "\r\n", "\n\n", "--c\n", "--c\r\n", "--[[c]]", "--[==[\nc\n]==]", "--[a[c\n", "--\n", "  ", " --[[a]] --[[b]] ", "--[[ ]] ]]\n", "--[[c]]\n", "--c\r"];
 
 /// byte offsets where trivia may be inserted: every token boundary, start and end of file
 pub fn gaps(src: &str) -> Vec<usize> {
